@@ -128,9 +128,41 @@ func (x *XmlNode) ContentTrim() string {
 
 func (x *XmlNode) field(m meta.Leafable) (string, bool) {
 	if ndx := x.Find(0, m); ndx >= 0 {
-		return x.Nodes[ndx].ContentTrim(), true
+		return x.Nodes[ndx].text(m.Type()), true
 	}
 	return "", false
+}
+
+// text is the content as the value of a leaf of type t: for a type that can
+// hold a string (string, a union with a string member, a leafref to one of
+// those) the text is the value, blanks included; the other types tolerate (and
+// ignore) surrounding white space
+func (x *XmlNode) text(t *meta.Type) string {
+	if holdsString(t, 0) {
+		return string(x.Content)
+	}
+	return x.ContentTrim()
+}
+
+func holdsString(t *meta.Type, depth int) bool {
+	if depth > 8 {
+		return false
+	}
+	switch t.Format().Single() {
+	case val.FmtString:
+		return true
+	case val.FmtLeafRef:
+		if target := t.Resolve(); target != t {
+			return holdsString(target, depth+1)
+		}
+	case val.FmtUnion:
+		for _, member := range t.Union() {
+			if holdsString(member, depth+1) {
+				return true
+			}
+		}
+	}
+	return false
 }
 
 func (x *XmlNode) Field(r node.FieldRequest, hnd *node.ValueHandle) error {
@@ -145,16 +177,12 @@ func (x *XmlNode) Field(r node.FieldRequest, hnd *node.ValueHandle) error {
 		// The XML elements representing list entries MAY be interleaved with elements
 		// for siblings of the list
 		for ndx >= 0 {
-			found = append(found, x.Nodes[ndx].ContentTrim())
+			found = append(found, x.Nodes[ndx].text(r.Meta.Type()))
 			ndx = x.Find(ndx+1, r.Meta)
 		}
 		hnd.Val, err = node.NewValue(r.Meta.Type(), found)
-	} else if r.Meta.Type().Format() == val.FmtString {
-		// the text of a string leaf is its value, blanks included; only the other
-		// types tolerate (and ignore) surrounding white space
-		hnd.Val, err = node.NewValue(r.Meta.Type(), string(x.Nodes[ndx].Content))
 	} else {
-		hnd.Val, err = node.NewValue(r.Meta.Type(), x.Nodes[ndx].ContentTrim())
+		hnd.Val, err = node.NewValue(r.Meta.Type(), x.Nodes[ndx].text(r.Meta.Type()))
 	}
 	return err
 }
